@@ -91,17 +91,29 @@ EDITS = {
         ("pp02", PAR + "preparser.rs", "            last_token_idx = Some(current_idx);", "            last_token_idx = Some(i);", "verus", "preparse"),
         ("pp03", PAR + "preparser.rs", "        } else if token.kind != TokenKind::Eof {", "        } else if token.kind != TokenKind::Error {", "verus", "preparse"),
         ("pp04", PAR + "preparser.rs", "            // Collect trivia\n            pending_trivia.push(i);", "            if token.kind != TokenKind::Whitespace { pending_trivia.push(i); }", "verus", "preparse"),
-        ("cp01", PAR + "cst_parser.rs", "        self.current += 1;\n    }\n\n    /// Expect a specific token kind", "        self.current += 2;\n    }\n\n    /// Expect a specific token kind", "verus", "parser_tokens"),
-        ("gr01", PAR + "green.rs", "            parent_children.push(node_id);", "            parent_children.insert(0, node_id);", "verus", "parser_tokens"),
-        ("gr02", PAR + "green.rs", "self.nodes.insert(GreenNode::Token { token_index, width })", "self.nodes.insert(GreenNode::Token { token_index: width, width })", "verus", "parser_tokens"),
-        ("gr03", PAR + "green.rs", "            // Push new node with those children\n            self.stack.push((kind, wrapped_children));", "            // Push new node with those children\n            self.stack.push((kind, Vec::new()));", "verus", "parser_tokens"),
-        ("gr04", PAR + "green.rs", "        if let Some((kind, children)) = self.stack.pop() {\n            let node_id = self.arena.alloc_internal(kind, children);", "        if let Some((kind, mut children)) = self.stack.pop() {\n            children.pop();\n            let node_id = self.arena.alloc_internal(kind, children);", "verus", "parser_tokens"),
-        ("gr05", PAR + "green.rs", "        let token_id = self.arena.alloc_token(token_index, width);\n        if let Some((_, children)) = self.stack.last_mut() {", "        let token_id = self.arena.alloc_token(token_index, width);\n        if let Some((_, children)) = self.stack.first_mut() {", "verus", "parser_tokens"),
-        ("cp06", PAR + "cst_parser.rs", "        self.builder.start_node(SyntaxKind::Program);\n\n        while !self.is_at_end() {", "        while !self.is_at_end() {", "verus", "parser_tokens"),
-        ("cp03", PAR + "cst_parser.rs", "            if self.current == before && !self.is_at_end() {", "            if self.current != before && !self.is_at_end() {", "verus", "parser_tokens"),
-        ("cp04", PAR + "cst_parser.rs", "        if self.check(kind) {\n            self.bump();\n            true", "        if self.check(kind) {\n            true", "verus", "parser_tokens"),
-        ("cp05", PAR + "cst_parser.rs", "        self.peek().is_none_or(|k| k == TokenKind::Eof)", "        self.peek().is_none_or(|k| k == TokenKind::Error)", "verus", "parser_tokens"),
-        ("cp02", PAR + "cst_parser.rs", "self.builder.add_token(token_idx, token.length);", "self.builder.add_token(token_idx + 1, token.length);", "verus", "parser_tokens"),
+        ("cp01", PAR + "cst_parser.rs", "        self.current += 1;\n    }\n\n    /// Expect a specific token kind", "        self.current += 2;\n    }\n\n    /// Expect a specific token kind", "verus", "cst_parser"),
+        ("gr01", PAR + "green.rs", "            parent_children.push(node_id);", "            parent_children.insert(0, node_id);", "verus", "cst_parser"),
+        ("gr02", PAR + "green.rs", "self.nodes.insert(GreenNode::Token { token_index, width })", "self.nodes.insert(GreenNode::Token { token_index: width, width })", "verus", "cst_parser"),
+        ("gr03", PAR + "green.rs", "            // Push new node with those children\n            self.stack.push((kind, wrapped_children));", "            // Push new node with those children\n            self.stack.push((kind, Vec::new()));", "verus", "cst_parser"),
+        ("gr04", PAR + "green.rs", "        if let Some((kind, children)) = self.stack.pop() {\n            let node_id = self.arena.alloc_internal(kind, children);", "        if let Some((kind, mut children)) = self.stack.pop() {\n            children.pop();\n            let node_id = self.arena.alloc_internal(kind, children);", "verus", "cst_parser"),
+        ("gr05", PAR + "green.rs", "        let token_id = self.arena.alloc_token(token_index, width);\n        if let Some((_, children)) = self.stack.last_mut() {", "        let token_id = self.arena.alloc_token(token_index, width);\n        if let Some((_, children)) = self.stack.first_mut() {", "verus", "cst_parser"),
+        ("cp06", PAR + "cst_parser.rs", "        self.builder.start_node(SyntaxKind::Program);\n\n        while !self.is_at_end() {", "        while !self.is_at_end() {", "verus", "cst_parser"),
+        ("cp03", PAR + "cst_parser.rs", "            if self.current == before && !self.is_at_end() {", "            if self.current != before && !self.is_at_end() {", "verus", "cst_parser"),
+        ("cp04", PAR + "cst_parser.rs", "        if self.check(kind) {\n            self.bump();\n            true", "        if self.check(kind) {\n            true", "verus", "cst_parser"),
+        ("cp05", PAR + "cst_parser.rs", "        self.peek().is_none_or(|k| k == TokenKind::Eof)", "        self.peek().is_none_or(|k| k == TokenKind::Error)", "verus", "cst_parser"),
+        ("cp02", PAR + "cst_parser.rs", "self.builder.add_token(token_idx, token.length);", "self.builder.add_token(token_idx + 1, token.length);", "verus", "cst_parser"),
+        # --- recursive-descent methods (unit cst_parser): each edit must fail the uniform contract of a parse_* method
+        ("ps01", PAR + "cst_parser.rs", "                if this.check(TokenKind::OpProduct) {\n                    this.emit_node(SyntaxKind::UseTargetWildcard, |this2| {\n                        this2.bump(); // consume '*'\n                    });\n                    return;",
+         "                if this.check(TokenKind::OpProduct) {\n                    this.builder.start_node(SyntaxKind::UseTargetWildcard);\n                    this.bump();\n                    return;", "verus", "cst_parser"),
+        ("ps02", PAR + "cst_parser.rs", "                lhs_marker = Marker {\n                    pos: self.builder.marker().pos.saturating_sub(1),\n                };\n\n                // After parsing infix",
+         "                lhs_marker = Marker {\n                    pos: self.builder.marker().pos + 1,\n                };\n\n                // After parsing infix", "verus", "cst_parser"),
+        ("ps03", PAR + "cst_parser.rs", "            self.builder.start_node_at(marker, SyntaxKind::UnionType);\n", "", "verus", "cst_parser"),
+        ("ps04", PAR + "cst_parser.rs", "                    this.tokens[token_idx].kind = TokenKind::IdentFunction;\n                }\n                this.bump();\n            }\n\n            // Parameters\n            if this.check(TokenKind::ParenBegin) {\n                this.parse_param_list();\n            }\n\n            // Optional return type annotation after '->'",
+         "                    this.tokens[token_idx].kind = TokenKind::IdentFunction;\n                    this.tokens[token_idx].length += 1;\n                }\n                this.bump();\n            }\n\n            // Parameters\n            if this.check(TokenKind::ParenBegin) {\n                this.parse_param_list();\n            }\n\n            // Optional return type annotation after '->'", "verus", "cst_parser"),
+        ("ps05", PAR + "cst_parser.rs", "                        this.add_error(ParserError::invalid_syntax(\n                            this.current_token_index(),\n                            \"parser made no progress in module; skipping token for recovery\",\n                        ));\n                        this.bump();",
+         "                        this.add_error(ParserError::invalid_syntax(\n                            this.current_token_index(),\n                            \"parser made no progress in module; skipping token for recovery\",\n                        ));\n                        this.current += 1;", "verus", "cst_parser"),
+        ("ps06", PAR + "cst_parser.rs", "        self.builder.start_node(kind);\n        f(self);\n        self.builder.finish_node();", "        self.builder.start_node(kind);\n        f(self);", "verus", "cst_parser"),
+        ("ps07", PAR + "cst_parser.rs", "            Some(kind) if kinds.contains(&kind) => {\n                self.bump();\n                true", "            Some(kind) if kinds.contains(&kind) => {\n                self.current = 0;\n                true", "verus", "cst_parser"),
     ],
     "C17": [
         ("rn01", "crates/lib/mimium-lang/src/compiler/mirgen/convert_qualified_names.rs", "resolved_path.len() < 2", "resolved_path.len() < 1", "verus", "resolve_names"),
